@@ -10,7 +10,7 @@ from selftest.harness import run_check
 prefixes = [a for a in sys.argv[1:] if not a.startswith("-")] or [""]
 verbose = "-v" in sys.argv
 ids = sorted(d for d in os.listdir("/verif/neutral_seeded") if os.path.isfile(f"/verif/neutral_seeded/{d}/patch.diff") and any(d.startswith(p) for p in prefixes))
-checks = [f"C{i:02d}" for i in range(1, 21)]
+checks = os.environ.get("HC_CHECKS", "").split(",") if os.environ.get("HC_CHECKS") else [f"C{i:02d}" for i in range(1, 21)]
 with ThreadPoolExecutor(16) as ex:
     base = dict(zip(checks, ex.map(lambda c: run_check(c, "/repo"), checks)))
 tmps = {}
